@@ -66,6 +66,16 @@ func Run(outDir string, seed int64, tier string) error {
 		foundDkg, foundKey, foundShare := false, false, false
 		for _, o := range r.obs {
 			rep.Evaluations++
+			if o.Transient != "" {
+				// seen by a concurrent reader while the real code was saving: secret bytes in a file whose
+				// mode, taken after the read, still had group/other bits
+				rep.Count("modes/transient-wide-secret")
+				rep.Fail("C15-secret-in-file-wider-than-owner-only",
+					fmt.Sprintf("%s held secret bytes with mode %04o under umask %04o, %s", o.Path, o.Mode, r.umask, o.Transient),
+					map[string]interface{}{"file": o.Path, "mode": fmt.Sprintf("%04o", o.Mode), "umask": fmt.Sprintf("%04o", r.umask), "preexisting_mode": r.prior, "crash_point": o.Transient,
+						"how": "a concurrent reader opened the file, found the node's private scalar in it, and fstat on the same descriptor then still showed group/other permission bits: a process death there leaves the secret in a group/other-readable file"})
+				continue
+			}
 			coq, dk, ok := classify(o)
 			in := map[string]interface{}{"file": o.Path, "umask": fmt.Sprintf("%04o", r.umask), "mode": fmt.Sprintf("%04o", o.Mode), "preexisting_mode": r.prior, "holds_secret_bytes": o.HasSecret}
 			if !ok {
